@@ -43,6 +43,17 @@ class SpecMDP(TabularMarkovDecisionProcess):
         return _flag(self.sp, s)
 
 
+class PersistentActionsMDP(SpecMDP):
+    """actions(s) hands out the SAME list object on every call (as QuickMDP(actions=[...]) would)"""
+    def __init__(self, sp):
+        super().__init__(sp)
+        self.action_lists = {s: list(sp.acts[s]) for s in sp.states}
+        self.action_snapshot = {s: tuple(v) for s, v in self.action_lists.items()}
+
+    def actions(self, s):
+        return self.action_lists[s]
+
+
 def _flag(sp, s):
     """is_absorbing() may legitimately answer with a bool, a 0/1 int or a numpy bool"""
     t = sp.meta.get("abs_type", "bool")
